@@ -1,5 +1,42 @@
-//! Test problems used by the harness binaries.
-use mahf::{problems::ObjectiveFunction, Problem, SingleObjective};
+//! Test problems used by the harness binaries. Every objective function counts its invocations
+//! and (optionally) logs the value it returned, so checks never have to trust cached values.
+use std::ops::Range;
+use std::sync::atomic::{AtomicU64, Ordering};
+use std::sync::{Arc, Mutex};
+
+use mahf::problems::{
+    KnownOptimumProblem, LimitedVectorProblem, ObjectiveFunction, TravellingSalespersonProblem,
+    VectorProblem,
+};
+use mahf::{Problem, SingleObjective};
+
+/// Invocation counter + log of returned values (bit patterns), shared with the harness.
+#[derive(Clone, Default)]
+pub struct Probe {
+    pub calls: Arc<AtomicU64>,
+    pub log: Arc<Mutex<Vec<f64>>>,
+    pub keep_log: bool,
+}
+impl Probe {
+    pub fn new(keep_log: bool) -> Self {
+        Probe { calls: Default::default(), log: Default::default(), keep_log }
+    }
+    pub fn record(&self, v: f64) {
+        self.calls.fetch_add(1, Ordering::SeqCst);
+        if self.keep_log {
+            self.log.lock().unwrap().push(v);
+        }
+    }
+    pub fn count(&self) -> u64 {
+        self.calls.load(Ordering::SeqCst)
+    }
+    pub fn min(&self) -> Option<f64> {
+        self.log.lock().unwrap().iter().cloned().fold(None, |m, v| match m {
+            None => Some(v),
+            Some(m) => Some(if v < m { v } else { m }),
+        })
+    }
+}
 
 /// A problem whose solutions are opaque tags; objective = tag as f64.
 pub struct TagProblem;
@@ -12,4 +49,129 @@ impl ObjectiveFunction for TagProblem {
     fn objective(&self, s: &u64) -> SingleObjective {
         SingleObjective::try_from(*s as f64).unwrap()
     }
+}
+
+/// Shifted sphere `Σ (x_i − shift)²` on `[lo, hi)^dim`. With `shift` outside the domain the
+/// optimum is infeasible (used by C07).
+#[derive(Clone)]
+pub struct Sphere {
+    pub dim: usize,
+    pub lo: f64,
+    pub hi: f64,
+    pub shift: f64,
+    pub probe: Probe,
+}
+impl Sphere {
+    pub fn new(dim: usize, lo: f64, hi: f64, shift: f64) -> Self {
+        Sphere { dim, lo, hi, shift, probe: Probe::new(true) }
+    }
+    pub fn f(&self, x: &[f64]) -> f64 {
+        x.iter().map(|v| (v - self.shift) * (v - self.shift)).sum()
+    }
+}
+impl Problem for Sphere {
+    type Encoding = Vec<f64>;
+    type Objective = SingleObjective;
+    fn name(&self) -> &str { "sphere" }
+}
+impl VectorProblem for Sphere {
+    type Element = f64;
+    fn dimension(&self) -> usize { self.dim }
+}
+impl LimitedVectorProblem for Sphere {
+    fn domain(&self) -> Vec<Range<f64>> { vec![self.lo..self.hi; self.dim] }
+}
+impl ObjectiveFunction for Sphere {
+    fn objective(&self, s: &Vec<f64>) -> SingleObjective {
+        let v = self.f(s);
+        self.probe.record(v);
+        SingleObjective::try_from(v).unwrap_or(SingleObjective::try_from(f64::INFINITY).unwrap())
+    }
+}
+impl KnownOptimumProblem for Sphere {
+    fn known_optimum(&self) -> SingleObjective { SingleObjective::try_from(0.0).unwrap() }
+}
+
+/// OneMax as a minimisation problem: number of `false` bits.
+#[derive(Clone)]
+pub struct OneMax {
+    pub dim: usize,
+    pub probe: Probe,
+}
+impl OneMax {
+    pub fn new(dim: usize) -> Self { OneMax { dim, probe: Probe::new(true) } }
+    pub fn f(&self, x: &[bool]) -> f64 { x.iter().filter(|b| !**b).count() as f64 }
+}
+impl Problem for OneMax {
+    type Encoding = Vec<bool>;
+    type Objective = SingleObjective;
+    fn name(&self) -> &str { "onemax" }
+}
+impl VectorProblem for OneMax {
+    type Element = bool;
+    fn dimension(&self) -> usize { self.dim }
+}
+impl ObjectiveFunction for OneMax {
+    fn objective(&self, s: &Vec<bool>) -> SingleObjective {
+        let v = self.f(s);
+        self.probe.record(v);
+        SingleObjective::try_from(v).unwrap()
+    }
+}
+impl KnownOptimumProblem for OneMax {
+    fn known_optimum(&self) -> SingleObjective { SingleObjective::try_from(0.0).unwrap() }
+}
+
+/// Symmetric TSP given by a full distance matrix; also a plain permutation problem.
+#[derive(Clone)]
+pub struct Tsp {
+    pub dist: Vec<Vec<f64>>,
+    pub probe: Probe,
+}
+impl Tsp {
+    pub fn new(dist: Vec<Vec<f64>>) -> Self { Tsp { dist, probe: Probe::new(true) } }
+    /// Cities on a line / random symmetric matrix, deterministic in `seed`.
+    pub fn random(n: usize, seed: u64, spread: f64) -> Self {
+        let mut r = crate::Sm::new(seed ^ 0x7573_7021);
+        let mut d = vec![vec![0.0; n]; n];
+        for i in 0..n {
+            for j in i + 1..n {
+                let v = 1.0 + r.unit() * spread;
+                d[i][j] = v;
+                d[j][i] = v;
+            }
+        }
+        Tsp::new(d)
+    }
+    pub fn f(&self, tour: &[usize]) -> f64 {
+        let n = tour.len();
+        if n == 0 { return 0.0; }
+        let mut s = 0.0;
+        for i in 0..n {
+            s += self.dist[tour[i]][tour[(i + 1) % n]];
+        }
+        s
+    }
+}
+impl Problem for Tsp {
+    type Encoding = Vec<usize>;
+    type Objective = SingleObjective;
+    fn name(&self) -> &str { "tsp" }
+}
+impl VectorProblem for Tsp {
+    type Element = usize;
+    fn dimension(&self) -> usize { self.dist.len() }
+}
+impl ObjectiveFunction for Tsp {
+    fn objective(&self, s: &Vec<usize>) -> SingleObjective {
+        let v = self.f(s);
+        self.probe.record(v);
+        SingleObjective::try_from(v).unwrap()
+    }
+}
+impl TravellingSalespersonProblem for Tsp {
+    fn distance(&self, edge: (usize, usize)) -> f64 { self.dist[edge.0][edge.1] }
+}
+impl KnownOptimumProblem for Tsp {
+    fn known_optimum(&self) -> SingleObjective { SingleObjective::try_from(0.0).unwrap() }
 }
